@@ -9,6 +9,16 @@ from . import extract as X
 I = z3.IntVal
 def S(s): return z3.StringVal(s)
 
+def str_tree_to_card(t):
+    """If-tree whose leaves are cardinality strings -> the same tree over the Card datatype (None if not of that shape)."""
+    if z3.is_string_value(t):
+        return T.card_str(t.as_string()) if t.as_string() in T.Card.strs else None
+    if z3.is_app(t) and t.decl().kind() == z3.Z3_OP_ITE:
+        a, b = str_tree_to_card(t.arg(1)), str_tree_to_card(t.arg(2))
+        if a is None or b is None: return None
+        return z3.If(t.arg(0), a, b)
+    return None
+
 def is_pystr(sv):
     return sv.ty == T.Str and z3.is_string_value(sv.t)
 
@@ -58,6 +68,8 @@ class ExprMixin:
         if ty == T.Card:
             if sv.ty == T.Int: return SV(ty, T.card_int(sv.t))
             if is_pystr(sv) and sv.t.as_string() in T.Card.strs: return SV(ty, T.card_str(sv.t.as_string()))
+            if sv.ty == T.Str and str_tree_to_card(sv.t) is not None:
+                return SV(ty, str_tree_to_card(sv.t))
             if sv.ty == T.Str and self.spec:
                 r = T.card_str(T.Card.strs[-1])
                 for s_ in T.Card.strs[:-1][::-1]: r = z3.If(sv.t == S(s_), T.card_str(s_), r)
@@ -173,6 +185,8 @@ class ExprMixin:
                 s = x.t.as_string()
                 return T.card_is_str(c.t, s) if s in T.Card.strs else z3.BoolVal(False)
             if x.ty == T.Str:
+                conv = str_tree_to_card(x.t)
+                if conv is not None: return c.t == conv
                 return z3.And(z3.Not(T.card_is_int(c.t)), self.to_str(st, c).t == x.t)
             raise VCError("Card compared with %s" % x.ty)
         if isinstance(a.ty, T.Atom) or isinstance(b.ty, T.Atom):
